@@ -103,6 +103,10 @@ func TestPropEnvBlock(t *testing.T) {
 	ev.Check(t, 30000, 1000000, func(t *rapid.T) {
 		st := &gstats{}
 		n := rapid.IntRange(0, 12).Draw(t, "n")
+		longBlock := rapid.IntRange(0, 29).Draw(t, "longblock") == 0
+		if longBlock {
+			n = rapid.IntRange(65, 90).Draw(t, "nlong")
+		}
 		// plan the literal names first so templates can reference earlier / later ones
 		planned := make([]string, n)
 		for i := range planned {
@@ -130,6 +134,9 @@ func TestPropEnvBlock(t *testing.T) {
 		}
 		for i := 0; i < n; i++ {
 			k := planned[i]
+			if longBlock {
+				k = fmt.Sprintf("%s_%d", k, i) // enough distinct names for a long block
+			}
 			if rapid.IntRange(0, 5).Draw(t, "dyn") == 0 {
 				k = template(t, "k", planned[:i], planned[i+1:], &gstats{}, true)
 				st.dynName = true
@@ -328,6 +335,9 @@ func TestPropEnvBlock(t *testing.T) {
 		}
 		if collisionMode {
 			cls = append(cls, "collision-heavy")
+		}
+		if longBlock {
+			cls = append(cls, "block>64")
 		}
 		if len(wantBlock) < len(block) && wantErr == nil {
 			cls = append(cls, "rename-collision")
